@@ -120,3 +120,47 @@ Proof. intros H3 Hl Hle. unfold decode_inner'.
   destruct (parse_tag' (pf fx) 0 (S (length (b0 :: i1))) (b0 :: i1)) as [[t rest]| | |]; try discriminate; try congruence.
   destruct t as [|c id tags]; [discriminate|]. destruct (id =? 16); [|discriminate]. destruct (envelope' fx tags) as [[[mid op] cs]| |]; discriminate. Qed.
 Print Assumptions c11_decode_no_panic.
+
+(* ---------- the repaired decoder agrees with the decoder as it was wherever that one delivered a frame ---------- *)
+Lemma parse_control'_agrees f4 t c : parse_control t = Ok c -> parse_control' f4 t = COk c.
+Proof. unfold parse_control, parse_control', oops.
+  repeat match goal with |- context [match ?x with _ => _ end] => destruct x end; intros H; try discriminate H; injection H as <-; reflexivity. Qed.
+Lemma parse_controls'_agrees f4 ts cs : parse_controls ts = Ok cs -> parse_controls' f4 ts = COk cs.
+Proof. revert cs. induction ts as [|t ts IH]; intros cs; cbn; [intros H; injection H as <-; reflexivity|].
+  destruct (parse_control t) as [c|] eqn:E; [|discriminate]. rewrite (parse_control'_agrees f4 t c E).
+  destruct (parse_controls ts) as [cs'|]; [|discriminate]. intros H; injection H as <-. now rewrite (IH cs' eq_refl). Qed.
+Lemma envelope'_agrees fx tags v : envelope tags = Ok (Some v) -> envelope' fx tags = COk v.
+Proof. unfold envelope, envelope', oops.
+  repeat match goal with
+  | |- context [parse_controls ?cs] => let E := fresh "E" in destruct (parse_controls cs) eqn:E; [rewrite (parse_controls'_agrees (fix4 fx) _ _ E)|]
+  | |- context [match ?x with _ => _ end] => destruct x end; intros H; try discriminate H; injection H as <-; reflexivity. Qed.
+
+Definition repaired_d (m : nat) : dfix := {| fix2 := true; fix4 := true; pf := lim true m |}.
+
+Theorem decode_agrees m buf mid op cs rest : decode_inner buf = DFrame mid op cs rest ->
+  (forall t r, parse_tag (S (length buf)) buf = POk (t, r) -> (tdepth t <= S m)%nat) ->
+  decode_inner' (repaired_d m) buf = DFrame mid op cs rest.
+Proof. unfold decode_inner, decode_inner'. destruct buf as [|x xs]; [discriminate|]. intros H Hd.
+  destruct (parse_tag (S (length (x :: xs))) (x :: xs)) as [[t r]| | |] eqn:E; try discriminate.
+  cbn [pf repaired_d]. rewrite (c11_repairs_reject_nothing_valid m _ _ t r E (Hd t r eq_refl)).
+  destruct t as [|c id tags]; [discriminate|]. destruct (id =? 16); [|discriminate].
+  destruct (envelope tags) as [[[[mid' op'] cs']|]|] eqn:Ee; try discriminate.
+  now rewrite (envelope'_agrees _ _ _ Ee). Qed.
+
+(* a proper prefix of an encoding is Incomplete for the repaired parser as well *)
+Theorem proper_prefix_incomplete' fx d t bs p q f : BerEnc t bs -> p ++ q = bs -> q <> [] -> parse_tag' fx d (S f) p = PInc.
+Proof.
+  intros HB E Hq. destruct p as [|b0 p]; [reflexivity|].
+  destruct HB as [c id v l Hid HL | c id ts l body Hid Hts HL]; cbn in E; injection E as -> E;
+    cbn [parse_tag']; rewrite header_ident by exact Hid.
+  - destruct (parse_length_prefix _ _ _ _ _ HL eq_refl E Hq) as [-> | (i2 & -> & Hlt)]; [reflexivity|].
+    destruct (N.ltb_spec (N.of_nat (length i2)) (N.of_nat (length v))); [reflexivity|lia].
+  - destruct (parse_length_prefix _ _ _ _ _ HL eq_refl E Hq) as [-> | (i2 & -> & Hlt)]; [reflexivity|].
+    destruct (N.ltb_spec (N.of_nat (length i2)) (N.of_nat (length body))); [reflexivity|lia].
+Qed.
+Print Assumptions decode_agrees.
+Corollary c11_decode_no_panic_repaired m buf : decode_inner' (repaired_d m) buf <> DPanic.
+Proof. now apply c11_decode_no_panic. Qed.
+Corollary c11_decode_no_wedge_repaired m b0 i1 len i2 :
+  parse_length i1 = POk (len, i2) -> len <= N.of_nat (length i2) -> decode_inner' (repaired_d m) (b0 :: i1) <> DNeed.
+Proof. now apply c11_decode_no_wedge. Qed.
